@@ -99,7 +99,8 @@ def run(ctx):
         return bool(c.get('local') and c.get('name') in ('clear', 'clear_variables', 'clear_functions') and 'HashMapContext' in (c.get('def') or ''))
     sites = [(a, sp) for a, sp in terminal_call_sites(prog, is_mutator, roots={'operator::Operator::eval_mut'}) if 'HashMapContext' not in a]
     callers = sorted({a for a, _ in sites})
-    names = sorted({t['callee']['name'] for f in prog.fns if 'HashMapContext' not in f.path for _, t in f.calls() if is_mutator(t['callee'])})
+    from rules.common import is_delegation
+    names = sorted({t['callee']['name'] for f in prog.fns if 'HashMapContext' not in f.path and not is_delegation(f, is_mutator) for _, t in f.calls() if is_mutator(t['callee'])})
     ctx.check(callers == ['operator::Operator::eval_mut'] and names == ['set_value'], 'R11.4', 'context-mutators', 'who-may-call', 'inside the crate, context state is changed only by Operator::eval_mut (or a private helper called only from it) calling set_value (callers found: %s, mutators called: %s)' % (callers, names))
     # R11.5 sibling evaluators: both walks satisfy the same specification (C08's evaluator rule: children in order, each once, with the
     # caller's context, first error wins, then Operator::eval resp. eval_mut on the collected values), so they differ only in the
